@@ -21,17 +21,24 @@
             (one number), C11_noise_insensitive_molecule (every coordinate at once, at the level of the hashed text),
             C11_rounding_respects_value; through numpy's binary64 algorithm rint(fl(x*10^n)): C11_np_around_exact, _far,
             C11_np_around_noise_insensitive (for every fl with three IEEE-754 properties, hypotheses), C11_prep_arr64_agrees; and for the
-            executable fl64 with no hypothesis left: C11_fl64_error, C11_noise_insensitive_binary64.
+            executable fl64 with no hypothesis left: C11_fl64_error, C11_noise_insensitive_binary64, C11_fl64_keeps_half (fl64 never
+            crosses a half-integer on [-2^40, 2^40]), C11_np_around_exact_binary64 / C11_prep_arr64_exact (numpy's algorithm on fl64 =
+            the exact rounding unless the binary64 product is itself a half-integer), C11_np_around_differs_only_near_tie.
     5. order and orientation of the bond list             -> C11_bond_order_invariant, C11_bond_canon_idempotent,
-            C11_bond_listing_validated_alike (outcome of the validator incl. ValidationError), C11_bond_listing_hash_invariant
+            C11_bond_listing_validated_alike (outcome of the validator incl. ValidationError), C11_bond_listing_hash_invariant.
+            Bond lists stored AS GIVEN (routes that skip the validator: from_data(text, connectivity=...), validated=True payloads,
+            copy(update)): C11_stored_listing_hash_eq_iff (hash equality = equality of the listings themselves, so == and the hash
+            still coincide) and C11_stored_listing_visible_refuted (the listing then shows in the hash: known finding
+            C11-text-keyword-bonds-unvalidated for the route on which the library itself sets validated=True).
     6. changes when a listed field changes by more than its rounding unit
          -> C11_sensitive, _scalar (one number), C11_sensitive_text, C11_sensitive_coordinate, C11_sensitive_mass,
             C11_sensitive_charge, C11_sensitive_fragment_charge, C11_sensitive_discrete (symbol, multiplicity, ghost flag,
             fragment boundary, fragment multiplicity, bond order); zone bounds C11_flush_zone_geometry_bound / _mass_ / _charge_.
     Not proved: SHA-1 collision freedom (parameter); that the machine's multiplication is fl64 (IEEE-754; the two are compared
-    on every run, ties and near-ties included); monotonicity / exactness on half-integers of fl64 (only its error bound is). *)
+    on every run, ties and near-ties included).  (The two IEEE-754 hypotheses of C11_np_around_exact are discharged for fl64 on
+    [-2^40, 2^40] by C11_fl64_keeps_half; global monotonicity of fl64 is not proved and no longer needed.) *)
 From Coq Require Import ZArith QArith Qabs List String Bool Permutation Lia Lqa.
-Require Import QV.Common.Outcome QV.Common.HFRound QV.Common.HFBin64 QV.Common.HFHash QV.Gen.HashConsts QV.Model.Hash QV.Proofs.Hash QV.Proofs.HashPrep QV.Proofs.HashMol QV.Proofs.HashFl64.
+Require Import QV.Common.Outcome QV.Common.HFRound QV.Common.HFBin64 QV.Common.HFHash QV.Gen.HashConsts QV.Model.Hash QV.Proofs.Hash QV.Proofs.HashPrep QV.Proofs.HashMol QV.Proofs.HashFl64 QV.Proofs.HashFl64Exact QV.Proofs.HashStored.
 Import ListNotations.
 Open Scope Z_scope.
 
@@ -226,6 +233,43 @@ Theorem C11_noise_insensitive_binary64 : forall n x d, 0 <= n ->
   prep_arr64 n (FQ (x + d)) = prep_arr64 n (FQ x) /\ prep_arr64 n (FQ x) = prep_arr n (FQ x).
 Proof. exact prep_arr64_noise_insensitive. Qed.
 
+(** The executable binary64 rounding never crosses a half-integer on [-2^40, 2^40] (every half-integer is a point of its grid
+    there): the two hypotheses of C11_np_around_exact hold of fl64 in the only form the proof uses them. *)
+Theorem C11_fl64_keeps_half : forall s (j : Z), (Qabs s <= inject_Z (2 ^ 40))%Q ->
+  ((inject_Z j + (1 # 2) <= s)%Q -> (inject_Z j + (1 # 2) <= fl64 s)%Q)
+  /\ ((s <= inject_Z j + (1 # 2))%Q -> (fl64 s <= inject_Z j + (1 # 2))%Q).
+Proof. exact fl64_keeps_half. Qed.
+
+(** ... hence numpy's around computed with fl64 is the exact half-even rounding of the exact product unless the binary64 product is
+    itself a half-integer, with no hypothesis on the rounding left; and float_prep's binary64 variant equals the exact model there. *)
+Theorem C11_np_around_exact_binary64 : forall n x, (Qabs (x * inject_Z (pow10 n)) <= inject_Z (2 ^ 40))%Q ->
+  ~ is_half (fl64 (x * inject_Z (pow10 n))) -> around64 n x = round_n n x.
+Proof. exact around64_exact. Qed.
+Theorem C11_prep_arr64_exact : forall n x, 0 <= n -> (Qabs (x * inject_Z (pow10 n)) <= inject_Z (2 ^ 40))%Q ->
+  ~ is_half (fl64 (x * inject_Z (pow10 n))) -> prep_arr64 n (FQ x) = prep_arr n (FQ x).
+Proof. exact prep_arr64_exact. Qed.
+
+(** The exceptional set: numpy's result differs from the exact rounding only for values whose exact product lies within the
+    rounding error 2^-13 of a tie (the harness' near-tie exclusion of 1e-3 units contains it). *)
+Theorem C11_np_around_differs_only_near_tie : forall n x, (Qabs (x * inject_Z (pow10 n)) <= inject_Z (2 ^ 40))%Q ->
+  around64 n x <> round_n n x ->
+  exists j : Z, (Qabs (x * inject_Z (pow10 n) - (inject_Z j + (1 # 2))) <= 1 # 8192)%Q.
+Proof. exact around64_differs_only_near_tie. Qed.
+
+(** A bond list stored as given (it did not pass the validator): the hashed text is equal exactly when the listings are equal item by
+    item (bond orders as reduced fractions) — so == and the hash coincide on such molecules too, but the listing is visible. *)
+Theorem C11_stored_listing_hash_eq_iff : forall to_mass m s s', wf m ->
+  (canon to_mass (with_connectivity m (Some s)) = canon to_mass (with_connectivity m (Some s')) <-> listed_as_given s = listed_as_given s').
+Proof. exact stored_listing_hash_eq_iff. Qed.
+
+(** ... and therefore "independent of the order and orientation in which bonds are listed" fails for a stored-as-given list (water,
+    bonds (0,1),(0,2) against (2,0),(1,0)), although the two validated lists hash alike: known finding C11-text-keyword-bonds-unvalidated. *)
+Theorem C11_stored_listing_visible_refuted :
+  exists to_mass m l l' bs, Permutation l (flip_by bs l') /\ canon_bonds l = canon_bonds l'
+    /\ canon to_mass (with_connectivity m (Some l)) <> canon to_mass (with_connectivity m (Some l'))
+    /\ canon to_mass (with_connectivity m (Some (canon_bonds l))) = canon to_mass (with_connectivity m (Some (canon_bonds l'))).
+Proof. exact stored_listing_visible_refuted. Qed.
+
 (** Non-vacuity.  Water cation with two bonds listed in two ways, a -0.0, a sub-unit coordinate, defaulted and
     explicit fields. *)
 Definition bd (a b n : Z) (d : positive) : bond := (a, b, Qmake n d).
@@ -320,6 +364,26 @@ Proof.
     apply Qabs_case; intros; lra.
 Qed.
 
+(** Non-vacuity of C11_np_around_exact_binary64: the double nearest 0.123456789012 satisfies both hypotheses (its binary64 product
+    with 1e8 is not a half-integer), and numpy's algorithm gives 12345679 units. *)
+Example C11_ex_around64_exact :
+  let x := (4447999591926409 # 36028797018963968)%Q in
+  (Qabs (x * inject_Z (pow10 8)) <= inject_Z (2 ^ 40))%Q
+  /\ ~ is_half (fl64 (x * inject_Z (pow10 8)))
+  /\ around64 8 x = 12345679 /\ round_n 8 x = 12345679.
+Proof.
+  cbv zeta. split; [|split; [|split]].
+  - vm_compute. discriminate.
+  - intros [j H]. remember (fl64 _) as v eqn:Ev in H. vm_compute in Ev. subst v.
+    unfold Qeq, Qplus, inject_Z in H. simpl Qnum in H. simpl Qden in H. lia.
+  - vm_compute. reflexivity.
+  - vm_compute. reflexivity.
+Qed.
+Example C11_ex_stored_listing : listed_as_given [sbd 0 1 2 2; sbd 0 2 1 1] = [sbd 0 1 1 1; sbd 0 2 1 1]
+  /\ listed_as_given [sbd 2 0 1 1; sbd 1 0 1 1] <> listed_as_given [sbd 0 1 1 1; sbd 0 2 1 1]
+  /\ wf stored_water.
+Proof. split; [|split]; vm_compute; [reflexivity|discriminate|reflexivity]. Qed.
+
 Print Assumptions C11_canon_complete.
 Print Assumptions C11_canon_injective.
 Print Assumptions C11_canon_injective_without_wf_refuted.
@@ -355,3 +419,9 @@ Print Assumptions C11_bond_listing_hash_invariant.
 Print Assumptions C11_np_around_noise_insensitive.
 Print Assumptions C11_fl64_error.
 Print Assumptions C11_noise_insensitive_binary64.
+Print Assumptions C11_fl64_keeps_half.
+Print Assumptions C11_np_around_exact_binary64.
+Print Assumptions C11_prep_arr64_exact.
+Print Assumptions C11_np_around_differs_only_near_tie.
+Print Assumptions C11_stored_listing_hash_eq_iff.
+Print Assumptions C11_stored_listing_visible_refuted.
